@@ -285,4 +285,54 @@ theorem buildMapIx_id (args : List Ty) (ps : List Nat) : ∀ (i : Nat) (m : GMap
       simp only [this, buildMap]
       exact ih (i + 1) (m.set p t)
 
+/-! ## F. binding loops -/
+
+theorem bindEach_refused (args : List Arg) : (bindEach args).1 = args.any argRefused := by
+  induction args with
+  | nil => rfl
+  | cons a as ih =>
+    unfold bindEach
+    cases h : argRefused a <;> simp [h, ih]
+
+theorem bindEach_bound (args : List Arg) (h : (bindEach args).1 = false) :
+    (bindEach args).2 = args.map (fun _ => true) := by
+  induction args with
+  | nil => rfl
+  | cons a as ih =>
+    unfold bindEach at h ⊢
+    cases ha : argRefused a
+    · simp only [ha, Bool.false_eq_true, if_false] at h ⊢
+      simp [ih h]
+    · simp [ha] at h
+
+theorem bindLastGo_eq (ctl : Bool) (args : List Arg) :
+    bindLastGo ctl args = (match args.getLast? with | none => ctl | some a => argRefused a) := by
+  induction args generalizing ctl with
+  | nil => rfl
+  | cons a as ih =>
+    unfold bindLastGo
+    rw [ih]
+    cases as with
+    | nil => rfl
+    | cons b bs =>
+      rw [List.getLast?_cons_cons]
+      cases h : (b :: bs).getLast? with
+      | none => simp at h
+      | some x => rfl
+
+/-- a position the single-variable loop forgets: refused, not last, everything after it fine -/
+def forgotten : List Arg := [(some .int, .string), (some .string, .string)]
+
+theorem bindRun_right_iff (sh : LoopShape) :
+    (∀ args, (bindRun sh args).1 = args.any argRefused) ↔ sh = .eachChecked := by
+  constructor
+  · intro h
+    have := h forgotten
+    cases sh
+    · rfl
+    all_goals (revert this; decide)
+  · intro h args
+    subst h
+    exact bindEach_refused args
+
 end Proofs.GenFacts
